@@ -69,6 +69,28 @@ def sym(obs):
     return "wrong-values"
 
 
+def regular_iters(sp, obs, A):
+    """number of leading loop bodies, per (batch, column), in which the safe division by p^T A p (lines 68 / 254) cannot
+    have fired: p_k^T A p_k >= 10 * eps, computed with the dense oracle from the recorded closure arguments p_k.
+    None when the closure calls were not recorded (tensor closure)."""
+    calls = obs.get("mm_calls")
+    if calls is None:
+        return None
+    batch, n, c = S.full_shapes(sp)
+    eps = sp.get("eps") if sp.get("eps") is not None else 1e-10
+    reg = torch.zeros(*batch, c, dtype=torch.long)
+    alive = torch.ones(*batch, c, dtype=torch.bool)
+    for k in range(1, len(calls)):
+        try:
+            pk = S.expand_cols(calls[k], sp)
+        except RuntimeError:      # the closure was called with something that is not (*batch, n, c): no statement
+            return None
+        pAp = (pk * (A @ pk)).sum(-2)
+        alive = alive & (pAp >= 10 * eps) & torch.isfinite(pAp)
+        reg = reg + alive.long()
+    return reg
+
+
 def check_system(spec, T, runs, cnt, single=False):
     """runs: list of (run spec, observation) for one system (budgets ascending).  Returns (failures, #evaluations)"""
     fails, ne = [], 0
@@ -187,6 +209,37 @@ def check_system(spec, T, runs, cnt, single=False):
             if bool(ch.any()):
                 fails.append(fail(good[a + 1][1], "frozen", "a converged column changed between budgets %s and %s" % (
                     good[a][1].get("max_iter"), good[a + 1][1].get("max_iter"))))
+    # ---- Chebyshev rate (NOT proved in Coq: numerical support on the implementation), float64 only:
+    #      ||x* - x_k||_A <= 2 ((sqrt(kp)-1)/(sqrt(kp)+1))^k ||x* - x_0||_A  down to the accuracy floor of the thresholds,
+    #      kp = condition number of the preconditioned operator (any SPD preconditioner only changes the rate)
+    if spec.get("dtype") != "float32" and finite_inputs:
+        lam_p = S.precond_spectrum(T)
+        kp = (lam_p[..., -1] / lam_p[..., 0]).clamp_min(1.0)                    # (*batch)
+        rho = ((kp.sqrt() - 1) / (kp.sqrt() + 1)).reshape(*batch, 1)
+        lmin = lam[..., 0].reshape(*batch, 1)
+        x0f = torch.zeros_like(xstar) if x0 is None else x0
+        e0 = S.anorm(A, xstar - x0f)
+        for gi, (its, sp, obs, x, xh, rn, drift, nrm) in enumerate(good):
+            if its is None or its < 1:
+                continue
+            eps_ = sp.get("eps") if sp.get("eps") is not None else 1e-10
+            stop_ = sp.get("stop") if sp.get("stop") is not None else 1e-10
+            # floor: relative residual sqrt(eps) + stop (+ rounding), turned into an A-norm error, un-normalised
+            floor_rel = math.sqrt(eps_) * 3 + stop_ * 3 + 1e4 * me * float(kappa)
+            floor = floor_rel * nrm.squeeze(-2) / lmin.sqrt()
+            # only the iterations before the p^T A p < eps guard fires count (afterwards the column is at the accuracy
+            # floor of the safe division, which depends on the scale of M^-1 A; the iterate no longer moves)
+            reg = regular_iters(sp, obs, A)
+            if reg is None:
+                continue
+            bound = 2.0 * rho ** reg.to(F64) * e0 * (1 + 1e-6) + floor
+            ne += 1
+            normal = torch.tensor([kd in "nhs" for kd in spec["cols"]]).expand(*batch, c)
+            bad = (errs[gi] > bound) & normal
+            if bool(bad.any()):
+                idx = torch.nonzero(bad)[0].tolist()
+                fails.append(fail(sp, "chebyshev", "A-norm error after %d iterations is %g > Chebyshev bound %g (kappa_precond=%g) at (batch, column) %s" % (
+                    its, float(errs[gi][tuple(idx)]), float(bound[tuple(idx)]), float(kp.max()), idx)))
     # the residual handed to the preconditioner at iteration k is the true residual of the k-th iterate
     last = good[-1]
     pc = last[2]["pre_calls"]
@@ -228,7 +281,79 @@ def check_tmat(sp, T, obs, A, its):
     ne += 1
     if bool((t[..., ~band] != 0).any()):
         fails.append(fail(sp, "tmat", "t_mat is not tridiagonal"))
+    if fails or sp.get("dtype") == "float32" or its is None or its < 1:
+        return fails, ne
+    # Lanczos content (independent dense oracle): T is the Lanczos matrix of Ahat = M^-1/2 A M^-1/2 started at
+    # z = M^-1/2 r0 / sqrt(r0^T M^-1 r0); hence the moments  e1^T T^p e1 = z^T Ahat^p z = r0^T (M^-1 A)^p M^-1 r0 / r0^T M^-1 r0
+    # for p <= 2m-1, and the Ritz values lie inside the spectrum of Ahat.  Only while no tridiagonalised column has hit a
+    # threshold (after a freeze the loop keeps writing rows from alpha = 0, which the property does not describe).
+    rhs = S.expand_cols(as_run(T["rhs"], sp), sp)
+    bn = rhs.norm(dim=-2, keepdim=True)
+    eps = sp.get("eps") if sp.get("eps") is not None else 1e-10
+    x0 = None if T["x0"] is None else S.expand_cols(as_run(T["x0"], sp), sp)
+    nrm = torch.where(bn < eps, torch.ones_like(bn), bn)
+    r0 = rhs / nrm - (A @ (x0 / nrm) if x0 is not None else 0.0)
+    Minv = as_run(T["Minv"], sp) if T["Minv"] is not None else torch.eye(n, dtype=F64).expand(*batch, n, n)
+    r0q, = (r0[..., :q],)
+    z0 = Minv @ r0q
+    rz0 = (r0q * z0).sum(-2)                                   # (*batch, q)
+    lam_p = S.precond_spectrum(T)
+    lo, hi = lam_p[..., 0], lam_p[..., -1]
+    kp = float((hi / lo).max())
+    # usable columns: normal rhs, first residual not tiny, the run never got close to a threshold
+    tq = t.movedim(0, -3)                                     # (*batch, q, m, m)
+    usable = torch.tensor([kd == "n" for kd in sp["cols"][:q]]).expand(*batch, q) & (r0q.norm(dim=-2) > 1e-3)
+    reg = regular_iters(sp, obs, A)
+    if reg is None:
+        return fails, ne
+    regq = reg[..., :q]
+    # an all-zero t_mat although a loop body was executed: nothing was recorded at all
+    ne += 1
+    if bool(((tq == 0).all(dim=-1).all(dim=-1) & usable).any()):
+        return [fail(sp, "tmat-lanczos", "t_mat is the %dx%d zero matrix although %d loop bodies were executed (the break of line 308 "
+                     "precedes the tridiagonal update of lines 311-332)" % (m, m, its), symptom="zero-tmat")], ne
+    usable = usable & (regq >= m)          # every kept row was written from a regular alpha
+    if T["x0"] is None and m >= 1 and bool(usable.any()):
+        small = its > m       # rows written after the kept block do not matter
+        e1 = torch.zeros(m, dtype=F64)
+        e1[0] = 1.0
+        v = z0
+        tv = e1.expand(*batch, q, m).unsqueeze(-1)
+        for p in range(1, min(2 * m - 1, 3) + 1):
+            v = Minv @ (A @ v)
+            tv = tq @ tv
+            mom_a = (r0q * v).sum(-2) / rz0
+            mom_t = tv[..., 0, 0]
+            ne += 1
+            tol = 1e-7 * max(1.0, kp) * mom_a.abs()
+            bad = ((mom_a - mom_t).abs() > tol) & usable
+            if p <= 2 * min(m, its) - 1 and bool(bad.any()) and last_rows_regular(tq, usable):
+                idx = torch.nonzero(bad)[0].tolist()
+                fails.append(fail(sp, "tmat-lanczos", "moment p=%d: e1^T T^p e1 = %.12g but z^T Ahat^p z = %.12g at (batch, column) %s" % (
+                    p, float(mom_t[tuple(idx)]), float(mom_a[tuple(idx)]), idx)))
+                break
+        ne += 1
+        if last_rows_regular(tq, usable):
+            ritz = torch.linalg.eigvalsh(tq)
+            slack = 1e-7 * max(1.0, kp)
+            outside = ((ritz[..., 0] < lo.unsqueeze(-1) * (1 - slack)) | (ritz[..., -1] > hi.unsqueeze(-1) * (1 + slack))) & usable
+            if bool(outside.any()):
+                idx = torch.nonzero(outside)[0].tolist()
+                fails.append(fail(sp, "tmat-ritz", "Ritz values [%g, %g] outside the spectrum [%g, %g] of the preconditioned operator at (batch, column) %s" % (
+                    float(ritz[tuple(idx)][0]), float(ritz[tuple(idx)][-1]), float(lo.reshape(-1)[0]), float(hi.reshape(-1)[0]), idx)))
     return fails, ne
+
+
+def last_rows_regular(tq, usable):
+    """no tridiagonalised usable column shows the signature of a fired threshold (an off-diagonal that is exactly 0 or
+    tiny: the column converged / its safe division fired while rows were still being written)"""
+    m = tq.shape[-1]
+    if m < 2:
+        return True
+    off = torch.diagonal(tq, offset=1, dim1=-2, dim2=-1).abs()        # (*batch, q, m-1)
+    dg = torch.diagonal(tq, dim1=-2, dim2=-1).abs()
+    rel = off / dg[..., :-1].clamp_min(1e-300)
+    return not bool(((rel < 1e-5).any(dim=-1) & usable).any())
 
 
 def triage(sp, T, obs, reason):
@@ -238,3 +363,37 @@ def triage(sp, T, obs, reason):
     if fs:
         return fs[0]["what"]
     return None
+
+
+def check_scaling(sp, T, obs, obs_c, c):
+    """linear_cg(c * rhs, c * x0) == c * linear_cg(rhs, x0) ; for c a power of two the normalised systems are
+    bit-identical, so the results must agree exactly (and raise / warn / t_mat identically), provided no column is
+    below eps before or after scaling (the hypothesis of theorem cg_scaling)."""
+    fails = []
+    if obs["err"] is not None or obs_c["err"] is not None:
+        if obs["err"] != obs_c["err"]:
+            fails.append(fail(sp, "scaling", "rhs raises %s but %g*rhs raises %s" % (obs["err"], c, obs_c["err"])))
+        return fails, 1
+    rhs = S.expand_cols(as_run(T["rhs"], sp), sp)
+    eps = sp.get("eps") if sp.get("eps") is not None else 1e-10
+    if sp.get("dtype") == "float32":
+        eps = float(torch.tensor(eps, dtype=torch.float32))
+    bn = rhs.norm(dim=-2)
+    hyp = (bn >= eps * 1.001) & (bn * c >= eps * 1.001) | (bn * max(c, 1.0) < eps * 0.999) & (bn == 0)
+    x, _ = result_full(sp, obs)
+    xc, _ = result_full(sp, obs_c)
+    if x is None or xc is None:
+        return fails, 1
+    if not bool(torch.isfinite(x).all()):
+        return fails, 1
+    bad = ((xc != c * x).any(dim=-2)) & hyp
+    if bool(bad.any()):
+        idx = torch.nonzero(bad)[0].tolist()
+        d = float((xc - c * x).abs().max())
+        fails.append(fail(sp, "scaling", "linear_cg(%g*rhs) != %g*linear_cg(rhs) (max abs difference %g) at (batch, column) %s" % (c, c, d, idx)))
+    if bool(hyp.all()):
+        if obs["warn"] != obs_c["warn"]:
+            fails.append(fail(sp, "scaling", "warning flag changes under scaling of the rhs by %g" % c))
+        if (obs["tmat"] is None) != (obs_c["tmat"] is None) or (obs["tmat"] is not None and not torch.equal(obs["tmat"], obs_c["tmat"])):
+            fails.append(fail(sp, "scaling", "t_mat changes under scaling of the rhs by %g" % c))
+    return fails, 1
